@@ -1,7 +1,7 @@
 """C07 -- validation never raises because of what the document contains.
 
 T-space: schemas of value-kind rules over the full callable set with well-typed,
-non-degenerate arguments x casts x 12 path shapes x documents carrying every value of V under
+non-degenerate arguments x casts x 17 path shapes x documents carrying every value of V under
 every key type of K.  Oracle: no exception escapes validate / Rule.test or the result accessors.
 """
 import itertools
@@ -15,14 +15,14 @@ from mc.props.c03 import shape
 from valida.schema import Schema
 
 META = {
-    "rule": "schemas of 1-2 value-kind rules: every Value / Value.length / Value.dtype callable with well-typed "
-            "non-degenerate arguments x casts {none, str->bool, str->int, both in different rules} x 12 path "
+    "rule": "(the 5 longest path shapes are combined with a 12-leaf sub-pool only) schemas of 1-2 value-kind rules: every Value / Value.length / Value.dtype callable with well-typed "
+            "non-degenerate arguments x casts {none, str->bool, str->int, both in different rules} x 17 path "
             "shapes x every document of the family; a case is one (schema, document) pair; non-trivial = at "
             "least one rule was tested (its path exists in the document)",
     "assumptions": ["arguments are of the kinds the conditions expect (the statement's premise); ill-typed "
                     "arguments are C01's totality oracle"],
-    "bounds": {"quick": {"documents": "F-type flat + two-level (all of V under all of K)", "argument tuples per callable": "1-2"},
-               "thorough": {"documents": "F-type + F-struct(4)", "argument tuples per callable": "1-2, plus pairwise and/or/xor on a 6-leaf sub-pool"}},
+    "bounds": {"quick": {"documents": "F-type flat + two-level (all of V under all of K) + F-deep", "argument tuples per callable": "1-2"},
+               "thorough": {"documents": "F-type + F-deep + F-struct(4)", "argument tuples per callable": "1-2, plus pairwise and/or/xor on a 6-leaf sub-pool"}},
 }
 
 L = T.leaf
@@ -44,6 +44,7 @@ M, Ls, MOL = gen.BARE
 PATHS = [
     (), (("prim", "a"),), (("prim", "a"), ("prim", 0)), (("prim", 0),), (("prim", 1.5),), (("prim", True),),
     (M,), (Ls,), (MOL,), (("prim", "a"), Ls), (M, M), (("prim", "a"), gen.MAPS[4]),
+    (MOL, MOL), (Ls, ("prim", "a")), (M, Ls, ("prim", "a")), (("prim", "servers"), Ls, ("prim", "port")), (MOL, MOL, MOL),
 ]
 CASTS = [(), (("str", "bool"),), (("str", "int"),), "both"]
 
@@ -56,7 +57,7 @@ def schemas(tier):
                 conds.append((op, a, b))
     out = []
     for c in conds:
-        for p in PATHS:
+        for p in (PATHS if c in SUB6 or c in EXTRA[:6] else PATHS[:12]):
             for cast in CASTS:
                 pt = T.path(p)
                 if cast == "both":
@@ -67,7 +68,7 @@ def schemas(tier):
 
 
 def family(tier):
-    d = gen.docs_type2()
+    d = gen.docs_type2() + gen.docs_deep()
     if tier == "thorough":
         d = d + gen.docs_struct(4)
     return d
@@ -80,6 +81,11 @@ def _schemas(tier):
     if tier not in _sc:
         _sc[tier] = schemas(tier)
     return _sc[tier]
+
+
+def prepare(tier):
+    _schemas(tier)
+    family(tier)
 
 
 def units(tier):
